@@ -100,3 +100,8 @@ package gov
 //@   ensures (len(targetPropsKeys) == old(len(targetPropsKeys))) ==> (forall k :: has(prop.Voters, k) ==> !(content(prop.Voters[k].Addr) == content(targetAddr) || (len(prop.Voters[k].Addr) == 0 && len(targetAddr) == 0)))   [C01,C14]
 //@   loop 0: invariant len(targetPropsKeys) == old(len(targetPropsKeys))
 //@   loop 0: invariant forall k :: visited(k) ==> has(prop.Voters, k) && !(content(prop.Voters[k].Addr) == content(targetAddr) || (len(prop.Voters[k].Addr) == 0 && len(targetAddr) == 0))
+
+// genesis loading: no claim (frame only), so that callers are checked against this and not against the body
+//@ func (ctrler *GovCtrler) InitLedger(req)
+//@   trusted
+//@   modifies everything
